@@ -310,7 +310,7 @@ func runForced(family string, dir string, seed uint64) forcedResult {
 	e := newForcedEnv(dir, seed, degree)
 	n := 150 + e.rng.Intn(100)
 	e.open(-1)
-	e.padOnly = fam == "coldrace" || fam == "wfailq" || fam == "wokq" || fam == "wfailr"
+	e.padOnly = fam == "coldrace" || fam == "wfailq" || fam == "wokq" || fam == "wfailr" || fam == "ww"
 	e.seedPoints(n)
 	// cold start: reopen with a fresh cache manager
 	if err := e.sh.Close(); err != nil {
@@ -717,6 +717,8 @@ func runForced(family string, dir string, seed uint64) forcedResult {
 			}
 		}()
 		res.Threads = append(res.Threads, tr)
+	case "ww":
+		e.runWW(variant, n, &res)
 	default:
 		e.runCacheFamily(fam, variant, n, &res)
 	}
